@@ -587,6 +587,14 @@ func (s *Session) Counters() {
 	if s.cbAcked != s.Acked {
 		s.fail("C17", "acked-total", "ACKed callbacks reported %d events in total, %d are acked", s.cbAcked, s.Acked)
 	}
+	probe := false
+	if !s.inRead && s.R != nil && s.curRead < 0 {
+		// Available needs a read session: open one just for the question
+		probe = s.Begin() == "ok"
+	}
+	if probe {
+		defer s.Done()
+	}
 	if s.inRead {
 		var av uint
 		r3 := s.guard("available", func() error {
